@@ -306,6 +306,23 @@ async fn try_forward_follower_connected(
                 ))
                 .is_ok()
             {
+                // grave goods and last wills are registered under $SYS, which the exported state
+                // leaves out: the registrations of the clients connected right now follow the
+                // initial state on the same channel
+                for registration in [SYSTEM_TOPIC_GRAVE_GOODS, SYSTEM_TOPIC_LAST_WILL] {
+                    let pattern = topic!(
+                        SYSTEM_TOPIC_ROOT,
+                        SYSTEM_TOPIC_CLIENTS,
+                        KeySegment::Wildcard,
+                        registration
+                    );
+                    for kvp in worterbuch.pget(&pattern).unwrap_or_default() {
+                        client_write_tx
+                            .send(ClientWriteCommand::Set(kvp.key, kvp.value, false))
+                            .await
+                            .ok();
+                    }
+                }
                 client_write_txs.push((*tx_id, client_write_tx));
                 *tx_id += 1;
             }
